@@ -52,16 +52,46 @@ func vhTableWithHand(m int) *pokertable.Table {
 	return t
 }
 
+// vhShowsHidden: the snapshot shows something a non-system observer must not see.
+func vhShowsHidden(x *pokertable.Table, m int) bool {
+	if x == nil || x.State == nil || x.State.GameState == nil {
+		return false
+	}
+	gs := x.State.GameState
+	if len(gs.Meta.Deck) > 0 || len(gs.Status.Burned) > 0 {
+		return true
+	}
+	closed := gs.Status.CurrentEvent == "GameClosed"
+	for i := 0; i < m && i < len(gs.Players); i++ {
+		p := gs.Players[i]
+		if (!closed || p.Fold) && (len(p.HoleCards) > 0 || p.Combination != nil) {
+			return true
+		}
+	}
+	return false
+}
+
 // VH_C20_Observer: what a non-system observer is shown, for every snapshot.
 func VH_C20_Observer() {
 	m := verifrt.Cfg("m")
 	t := vhTableWithHand(m)
-	system := verifrt.Bool("system")
+	// the mode may be switched at any time: before the earlier deliveries (system0), before the
+	// delivery under test (system) and afterwards (system2); whatever the listener is handed
+	// while the observer is *not* in system mode must be filtered — a switch included
+	system0 := verifrt.Bool("system0")
+	mode := system0
+	leak := false
 	obr := NewObserverRunner()
-	obr.EnabledSystemMode(system)
+	obr.EnabledSystemMode(system0)
 	var seen *pokertable.Table
 	calls := 0
-	obr.OnTableStateUpdated(func(x *pokertable.Table) { seen = x; calls++ })
+	obr.OnTableStateUpdated(func(x *pokertable.Table) {
+		seen = x
+		calls++
+		if !mode && vhShowsHidden(x, m) {
+			leak = true
+		}
+	})
 	// other observers exist in the same process, configured before or after this one, in
 	// either mode: what they are set to is their own business
 	if verifrt.Bool("otherObserver") {
@@ -85,6 +115,9 @@ func VH_C20_Observer() {
 		}
 		verifrt.Assert(obr.UpdateTableState(t0) == nil, "earlier snapshot accepted")
 	}
+	system := verifrt.Bool("system")
+	mode = system
+	obr.EnabledSystemMode(system)
 	calls = 0
 	err := obr.UpdateTableState(t)
 
@@ -110,6 +143,10 @@ func VH_C20_Observer() {
 			}
 		}
 	}
+	system2 := verifrt.Bool("system2")
+	mode = system2
+	obr.EnabledSystemMode(system2)
+	verifrt.Assert(!leak, "whatever the listener is handed while the observer is not in system mode is filtered (mode switches included)")
 	verifrt.Reach("end")
 }
 
